@@ -221,7 +221,12 @@ impl PhoneticSuggestion {
 
             // Auto Correct item.
             if let Some(correct) = self.search_corrected(string.word(), data) {
-                let corrected = self.phonetic.convert(correct);
+                // The parser only handles ASCII, a replacement written in Bengali is taken as it is.
+                let corrected = if correct.is_ascii() {
+                    self.phonetic.convert(correct)
+                } else {
+                    correct.to_owned()
+                };
                 // Treat it as the first priority.
                 suggestions.push(Rank::first_ranked(corrected));
             }
